@@ -176,6 +176,99 @@ func richItem(rt *rapid.T, o gen.AVOpts) model.Item {
 
 // exprGuards returns the open findings whose trigger the case satisfies.
 func exprGuards(names map[string]string, paths []model.Path, item model.Item, values map[string]model.AV, condition ...bool) []string {
+	return exprGuardsX(names, paths, item, values, nil, condition...)
+}
+
+// removeOnlyAliases returns the aliases of an update that are used only as
+// whole one-element targets of REMOVE actions. Removing a top-level attribute
+// looks the name up verbatim (no splitting at dots), so F-ALIASDOT does not
+// show for them as long as the preceding evaluation of the name is harmless
+// (dottedNameHarmless).
+func removeOnlyAliases(u model.Update, names map[string]string) map[string]bool {
+	uses, removes := map[string]int{}, map[string]int{}
+	model.WalkUpdate(u, func(x model.Expr) {
+		if p, ok := x.(model.Path); ok {
+			for _, el := range p.Elems {
+				if !el.IsIndex {
+					uses[el.Name]++
+				}
+			}
+		}
+	})
+	for _, cl := range u.Clauses {
+		if cl.Kind != "REMOVE" {
+			continue
+		}
+		for _, a := range cl.Actions {
+			if len(a.Path.Elems) == 1 && !a.Path.Elems[0].IsIndex {
+				removes[a.Path.Elems[0].Name]++
+			}
+		}
+	}
+	// attributes written by any action of the expression (by the time the REMOVE
+	// is evaluated the item may already hold them, with any type)
+	heads := map[string]int{}
+	for _, cl := range u.Clauses {
+		for _, a := range cl.Actions {
+			if len(a.Path.Elems) == 0 || a.Path.Elems[0].IsIndex {
+				continue
+			}
+			h := a.Path.Elems[0].Name
+			if v, ok := names[h]; ok {
+				h = v
+			}
+			heads[strings.SplitN(h, ".", 2)[0]]++
+			heads[h]++
+		}
+	}
+	out := map[string]bool{}
+	for k, v := range names {
+		if uses[k] > 0 && uses[k] == removes[k] && heads[strings.SplitN(v, ".", 2)[0]] == removes[k] {
+			out[k] = true
+		}
+	}
+	return out
+}
+
+// dottedNameHarmless: before it removes a top-level attribute the interpreter
+// evaluates the name once, which splits it at the dots when no attribute of
+// exactly that name exists (F-ALIASDOT) and fails when a step is applied to a
+// value that is not a map. The evaluation is harmless when the exact name
+// exists, when the head of the split name is absent, or when every step but
+// the last leads through maps the item holds.
+func dottedNameHarmless(name string, item model.Item, names map[string]string) bool {
+	if _, ok := item[name]; ok {
+		return true
+	}
+	if strings.ContainsAny(name, "[]") {
+		return false
+	}
+	parts := strings.Split(name, ".")
+	for _, p := range parts {
+		if _, isAlias := names[p]; isAlias || p == "" {
+			return false
+		}
+	}
+	cur, ok := item[parts[0]]
+	if !ok {
+		return true
+	}
+	for i, p := range parts[1:] {
+		if cur.T != "M" {
+			return false
+		}
+		if i == len(parts)-2 {
+			return true
+		}
+		if cur, ok = cur.M[p]; !ok {
+			return false
+		}
+	}
+	return true
+}
+
+// exprGuardsX is exprGuards with a set of aliases for which F-ALIASDOT is known not to show.
+func exprGuardsX(names map[string]string, paths []model.Path, item model.Item, values map[string]model.AV, noAliasDot map[string]bool, condition ...bool) []string {
 	var ids []string
 	add := func(id string) {
 		if open(id) {
@@ -190,6 +283,9 @@ func exprGuards(names map[string]string, paths []model.Path, item model.Item, va
 		// verbatim first and only then split into a path. In a condition the
 		// finding therefore does not show when the item holds the attribute
 		// and every use of the alias is a whole one-element path.
+		if noAliasDot[k] && dottedNameHarmless(v, item, names) {
+			continue
+		}
 		benign := len(condition) > 0 && condition[0]
 		if _, ok := item[v]; !ok {
 			benign = false
@@ -578,7 +674,7 @@ func runC07(c exprCase, info *c07Info) *failure {
 		}
 	})
 	env := model.Env{Item: c.Item, Names: c.Names, Values: c.Values}
-	ids := exprGuards(c.Names, paths, c.Item, c.Values)
+	ids := exprGuardsX(c.Names, paths, c.Item, c.Values, removeOnlyAliases(u, c.Names))
 	for _, id := range model.UpdateGuards(u, c.Item, env, nil) {
 		if open(id) {
 			ids = append(ids, id)
@@ -733,6 +829,12 @@ func TestC07(t *testing.T) {
 			it = richItem(rt, o)
 		}
 		c := gen.NewExprCtx(it, o).Style(rt)
+		// absent attributes whose names, split at the dot, would lead into a map the
+		// item may hold: REMOVE of such a name is a no-op, not a removal of the member
+		// (in a tenth of the cases: most uses of such a name fall under F-ALIASDOT)
+		if rapid.IntRange(0, 9).Draw(rt, "dottedAbsentName") == 4 {
+			c.Absent = append(c.Absent, rapid.SampledFrom([]string{"m.k", "m.x", "deep.k"}).Draw(rt, "dottedAbsent"))
+		}
 		u := c.Update(rt, gen.UpdateCfg{MaxActions: 4, IllTyped: 8})
 		ec := exprCase{Expr: gen.Decorate(rt, model.RenderUpdate(u)), Item: it, Absent: absent, Names: c.Names, Values: c.Values,
 			API: rapid.IntRange(0, 9).Draw(rt, "api") == 0}
